@@ -739,6 +739,90 @@ pub fn f7() -> Vec<GenProg> {
     out
 }
 
+
+/// F8: repeated sub-plans — two clauses (or two union branches, or a rule and the query) share the same
+/// body, so the subplan-sharing pass has something to extract; bodies include negation of base and of
+/// DERIVED relations, joins with derived relations, comparisons.
+pub fn f8(b: &Bounds) -> Vec<GenProg> {
+    let mut out = vec![];
+    let lower: Vec<Clause> = vec![clause("d", &[X], vec![pos("m", &[X])]), clause("d2", &[X, Y], vec![pos("f", &[X, Y])])];
+    // (body, variables usable in heads, needs lower layer)
+    let bodies_: Vec<(Vec<Lit>, Vec<Term>)> = vec![
+        (vec![pos("e", &[X, Y]), neg("d", &[X])], vec![X, Y]),
+        (vec![pos("e", &[X, Y]), neg("d", &[Y])], vec![X, Y]),
+        (vec![pos("e", &[X, Y]), neg("m", &[X])], vec![X, Y]),
+        (vec![pos("e", &[X, Y]), pos("f", &[Y, Z])], vec![X, Y, Z]),
+        (vec![pos("e", &[X, Y]), pos("d2", &[Y, Z])], vec![X, Y, Z]),
+        (vec![pos("e", &[X, Y]), Lit::Cmp(X, CmpOp::Lt, Y)], vec![X, Y]),
+        (vec![pos("e", &[X, Y]), neg("d2", &[X, Y])], vec![X, Y]),
+        (vec![pos("e", &[X, Y]), pos("n", &[X]), neg("d", &[X])], vec![X, Y]),
+        (vec![pos("n", &[X]), neg("d", &[X])], vec![X]),
+    ];
+    for (body, vars) in &bodies_ {
+        let uses = |name: &str| body.iter().any(|l| matches!(l, Lit::Pos(a) | Lit::Neg(a) if a.rel == name));
+        let mut low: Vec<Clause> = vec![];
+        if uses("d") {
+            low.push(lower[0].clone());
+        }
+        if uses("d2") {
+            low.push(lower[1].clone());
+        }
+        let mut hs: Vec<Vec<Term>> = vec![];
+        for v in vars {
+            hs.push(vec![v.clone()]);
+        }
+        if vars.len() >= 2 {
+            hs.push(vec![vars[0].clone(), vars[1].clone()]);
+            hs.push(vec![vars[1].clone(), vars[0].clone()]);
+        }
+        if vars.len() >= 3 && !b.quick {
+            hs.push(vec![vars[0].clone(), vars[2].clone()]);
+        }
+        for h1 in &hs {
+            for h2 in &hs {
+                // two heads with the same body; query reads one, the other, or joins both
+                let p = clause("p", h1, body.clone());
+                let r = clause("r", h2, body.clone());
+                let a1: Vec<Term> = (0..h1.len()).map(|i| Var(i as u8)).collect();
+                let a2: Vec<Term> = (0..h2.len()).map(|i| Var(i as u8)).collect();
+                let mut qs: Vec<Clause> = vec![q(&a1, vec![pos("p", &a1)]), q(&a2, vec![pos("r", &a2)])];
+                if !b.quick || h1.len() == 1 {
+                    // join on the first column
+                    let mut ra: Vec<Term> = vec![X];
+                    for i in 1..h2.len() {
+                        ra.push(Var((h1.len() + i) as u8));
+                    }
+                    qs.push(q(&[X], vec![pos("p", &a1), pos("r", &ra)]));
+                }
+                for qc in qs {
+                    let mut cl = low.clone();
+                    cl.push(p.clone());
+                    cl.push(r.clone());
+                    cl.push(qc);
+                    out.push(GenProg { family: "F8", prog: Program { clauses: cl } });
+                }
+                // union head whose two branches share the body
+                if h1.len() == h2.len() && h1 != h2 {
+                    let mut cl = low.clone();
+                    cl.push(clause("a", h1, body.clone()));
+                    cl.push(clause("a", h2, body.clone()));
+                    cl.push(q(&a1, vec![pos("a", &a1)]));
+                    out.push(GenProg { family: "F8", prog: Program { clauses: cl } });
+                }
+            }
+            // a rule and the query itself share the body
+            let mut cl = low.clone();
+            cl.push(clause("p", h1, body.clone()));
+            let mut qb = body.clone();
+            let pa: Vec<Term> = h1.clone();
+            qb.push(pos("p", &pa));
+            cl.push(q(h1, qb));
+            out.push(GenProg { family: "F8", prog: Program { clauses: cl } });
+        }
+    }
+    out
+}
+
 pub fn all_families(b: &Bounds, which: &[&str]) -> Vec<GenProg> {
     let mut out = vec![];
     for w in which {
@@ -750,6 +834,7 @@ pub fn all_families(b: &Bounds, which: &[&str]) -> Vec<GenProg> {
             "F5" => out.extend(f5(b)),
             "F6" => out.extend(f6(b)),
             "F7" => out.extend(f7()),
+            "F8" => out.extend(f8(b)),
             _ => panic!("unknown family {w}"),
         }
     }
